@@ -91,7 +91,7 @@ def deviations(n):
                 out.append({'searchers': s})
         out.append({'searchers': [{'honours_rebuild': False, 'ans': {m: 'fresh'}}]})
         for idx in (0, 1):
-            for ans in ('has', 'error'):
+            for ans in ('has', 'error', 'plainerror'):   # plainerror: what a strict reader raises for a directory it cannot open
                 b = [{'texts': False, 'ans': {}}, {'texts': True, 'ans': {}}]
                 b[idx]['ans'][m] = ans
                 out.append({'borrowers': b})
@@ -268,6 +268,9 @@ class FailureAndRepair(object):
                 seconds.append({'borrowers': b})
             seconds.append({'searchers': [{'ans': {m2: 'fresh'}}]})
             seconds.append({'borrowers': [{'texts': False, 'ans': {m2: 'hasempty'}}, {'texts': True, 'ans': {m2: 'hasempty'}}]})
+            # a borrower that fails (reader error / the package's plain error) in front of one that has the copy
+            for bad in ('error', 'plainerror'):
+                seconds.append({'borrowers': [{'texts': False, 'ans': {m2: bad}}, {'texts': False, 'ans': {m2: 'has'}}]})
             for fi in range(6):
                 seconds.append(self._fail(fi, m2))
         for si, sec in enumerate(seconds):
